@@ -390,6 +390,34 @@ Proof.
   rewrite C. apply fold_astep_writes.
 Qed.
 
+(* The frame encoders' pattern as a whole, on the concrete buffer: remember Len(), write a placeholder, write the body in
+   any number of pieces (the buffer may slide or move to a new array at any of them), then put the length bytes through
+   buf.Bytes()[pos:pos+k] taken afterwards.  Whatever the buffer's state before, it then holds what it held, the length
+   bytes, and the body. *)
+Theorem frame_pattern nc0 placeholder lenbytes ws s s1 : WF (st_h s) (st_b s) ->
+  length placeholder = length lenbytes ->
+  bsteps s (BWrite nc0 placeholder :: map (fun w => BWrite (fst w) (snd w)) ws) = Some s1 ->
+  let pos := unread (st_b s) in
+  let h' := swrite (st_h s1) (sub (bytes_of (st_b s1)) pos (pos + length lenbytes)) lenbytes in
+  WF h' (st_b s1) /\
+  contents h' (st_b s1) = contents (st_h s) (st_b s) ++ lenbytes ++ concat (map snd ws).
+Proof.
+  intros W Hl R pos h'.
+  pose proof (writes_concatenate ((nc0, placeholder) :: ws) s s1 W R) as (W1 & C1).
+  cbn [map snd concat] in C1.
+  pose proof (contents_length _ _ W) as Lc. fold pos in Lc.
+  pose proof (contents_length _ _ W1) as L1. rewrite C1, !app_length in L1.
+  assert (Hfit : pos + length lenbytes <= unread (st_b s1)) by lia.
+  destruct (fresh_backfill (st_h s1) (st_b s1) pos lenbytes W1 Hfit) as (W2 & C2).
+  split; [exact W2|].
+  fold h' in C2. rewrite C2, C1.
+  set (c := contents (st_h s) (st_b s)) in *. set (rest := concat (map snd ws)).
+  replace (c ++ placeholder ++ rest) with (c ++ [] ++ placeholder ++ rest) by reflexivity.
+  rewrite blit_app3 by (cbn [length]; lia).
+  cbn [app]. do 2 f_equal.
+  rewrite skipn_app, <- Hl, skipn_all, Nat.sub_diag. reflexivity.
+Qed.
+
 Lemma new_buffer_wf a k : k <= length a -> WF (st_h (new_buffer a k)) (st_b (new_buffer a k)).
 Proof. intros H. unfold WF, new_buffer, cap, get. cbn. lia. Qed.
 
